@@ -18,6 +18,7 @@
 package main
 
 import (
+	"encoding/binary"
 	"bufio"
 	"bytes"
 	"context"
@@ -194,6 +195,21 @@ func malformedButAccepted(a bgp.PathAttributeInterface) bool {
 		l = v.Value
 	case *bgp.PathAttributeMpUnreachNLRI:
 		l = v.Value
+	}
+	if te, ok := a.(*bgp.PathAttributeTunnelEncap); ok {
+		for _, tlv := range te.Value {
+			for _, st := range tlv.Value {
+				if b, ok := st.(*bgp.TunnelEncapSubTLVSRBSID); ok {
+					if b.Flags&0x3f != 0 {
+						return true // only the S and I flags are defined (and carried by the API)
+					}
+					if b.BSID != nil && len(b.BSID.Value) == 4 && binary.BigEndian.Uint32(b.BSID.Value)&0xfff != 0 {
+						// an MPLS binding SID whose TC / S / TTL bits are set: the API (and NewBSID) carry the label only
+						return true
+					}
+				}
+			}
+		}
 	}
 	for _, x := range l {
 		if e, ok := x.NLRI.(*bgp.EVPNNLRI); ok {
